@@ -148,6 +148,43 @@ def r_bose(ctx, model):
                       explanation=f"overriding Bose factor {name} differs: {why2}", key=f"bose.offd.{name}")
 
 
+def r_history(ctx, model):
+    """a second calculation in the same process (same (T,V) grid, other phonon data) obeys the same identities:
+    the formulas of a second object are folded in the SAME evaluator session, so module-level state written by the
+    first (caches keyed by part of the inputs) is visible to it"""
+    from ..facts import CALC, ROLE_VALUE
+    ref = reference()
+    ev = make_ev(ctx, model)
+    first = {}
+    for cref in (LONG, OFFD):
+        for attr in ("zero_point_contribution", "thermal_contribution", "isothermal_to_adiabatic"):
+            first[(cref, attr)] = norm(ev.get_attr(Obj(cref), attr))
+    FB, GB, VB = sp.symbols("FREQ GAMMA VDR", real=True)       # same names, new session objects below
+    F2, G2, V2 = sp.Symbol("FREQ_B", real=True), sp.Symbol("GAMMA_B", real=True), sp.Symbol("VDR_B", real=True)
+    calc1 = ev.seeds[(LONG, "calculator")]
+    calc2 = Obj(CALC, dict(calc1.attrs))
+    calc2.attrs.pop("_prop_cache", None)
+    calc2.attrs["freq_array"] = F2 * U.UNIT_TABLE["cm"]
+    from ..sym import Tup
+    calc2.attrs["mode_gamma"] = Tup([V2, G2, G2 ** 2], "list")
+    sub = {FREQ: F2, GAMMA: G2, VDR: V2}
+    E2 = sp.Symbol("E_B", positive=True)
+    q2 = QPHYS.subs(FREQ, F2)
+    for kind, cref in (("long", LONG), ("offd", OFFD)):
+        obj = Obj(cref, {"calculator": calc2, "e": Tup([E0, E1]), "q_weights": sp.Symbol("W", positive=True)})
+        for part, attr in (("zp", "zero_point_contribution"), ("th", "thermal_contribution")):
+            owner, f, _ = model.find_member(cref, attr)
+            got = bose(bose(sp.sympify(as_sym(ev.get_attr(obj, attr))), q2, E2), QPHYS, E)
+            want = bose(bose(expected(kind, part, ref).subs(sub, simultaneous=True), q2, E2), QPHYS, E)
+            if kind == "long":
+                got, want = got.subs(E1, E0), want.subs(E1, E0)
+            same, why = compare(got, want, {F2, G2, V2, E2} | MODE_DEP)
+            ctx.check(same, f"second calculation in the process: {kind}.{attr}", model.where(f"{owner}.{attr}", f),
+                      expected="the same identity with the second calculation's own spectrum", found=why[:300] or "as required",
+                      explanation=f"{attr} of a second calculation on the same (T,V) grid but with another spectrum is built from the FIRST "
+                                  f"calculation's data (process-wide cache keyed by part of the inputs): {why[:200]}", key=f"history.{kind}.{attr}")
+
+
 # ------------------------------------------------------------------ masks
 def r_mask(ctx, model):
     ev = make_ev(ctx, model)
@@ -453,4 +490,5 @@ RULES = [
     ("R01.7", "mode average: unweighted mean over modes, weighted mean over q with q_weights; Gamma mask (q=0, m<3) on a copy", r_average),
     ("R01.9", "thermal parts are zeroed on T = 0 rows after the arithmetic", r_mask),
     ("R01.10", "mode_gamma producer/consumer order bound through interpolate_modes' return order", r_binding),
+    ("R01.11", "a second calculation folded in the same session (same grid, other spectrum) obeys the same identities", r_history),
 ]
